@@ -85,3 +85,85 @@ func c20Syncer(t *rapid.T) {
 }
 
 func TestC20Syncer(t *testing.T) { rapid.Check(t, c20Syncer) }
+
+// c20SyncerWindow: the syncer's reaction over the supervisor's whole retry window (real back-off, ~21 s): a batch of
+// syncers whose nodes either never report master (the topology update must not return as if it had found one: the
+// syncer would go on replicating from a node that may be a replica by now) or start reporting master only after a
+// generated number of INFO rounds (the update must return with exactly that node).
+func c20SyncerWindow(t *rapid.T) {
+	conf.Options.SourceType = conf.RedisTypeCluster
+	defer func() { conf.Options.SourceType = conf.RedisTypeStandalone }()
+	k := rapid.IntRange(4, 8).Draw(t, "k")
+	type inst struct {
+		n, lateNode, lateAfter int // lateNode -1: never
+		srvs                   []*mredis.Server
+		addrs                  []string
+		ds                     *dbSync.DbSyncer
+		res                    logcap.Result
+	}
+	insts := make([]*inst, k)
+	for i := range insts {
+		in := &inst{n: rapid.IntRange(1, 3).Draw(t, "nodes"), lateNode: -1}
+		if rapid.IntRange(0, 2).Draw(t, "late") == 0 {
+			in.lateNode = rapid.IntRange(0, in.n-1).Draw(t, "lateNode")
+			in.lateAfter = rapid.IntRange(1, 6).Draw(t, "lateAfter") // INFO rounds answered as replica before
+		}
+		for j := 0; j < in.n; j++ {
+			s := mredis.New()
+			s.Password = srcSentinel
+			s.Role = rapid.SampledFrom([]string{"slave", "slave", "none"}).Draw(t, "role")
+			if j == in.lateNode {
+				count := 0
+				after := in.lateAfter
+				s.Hook = func(cs *mredis.ConnState, argv [][]byte) *mredis.Reply {
+					if strings.EqualFold(string(argv[0]), "info") {
+						count++
+						if count > after {
+							s.Role = "master" // the hook runs with the model's lock held
+						}
+					}
+					return nil
+				}
+			}
+			s.Listen()
+			in.srvs = append(in.srvs, s)
+			in.addrs = append(in.addrs, s.Addr())
+		}
+		node := &slot.SyncNode{Id: i, Source: in.addrs[0], Slaves: append([]string{}, in.addrs[1:]...), SourcePassword: srcSentinel, TargetPassword: tgtSentinel,
+			Target: []string{"127.0.0.1:1"}, SlotLeftBoundary: 0, SlotRightBoundary: 16383}
+		in.ds = dbSync.NewDbSyncer(node, 9320, semaphore.NewWeighted(1))
+		insts[i] = in
+	}
+	done := make(chan int, k)
+	for i, in := range insts {
+		go func(i int, in *inst) { in.res = logcap.Run(func() { in.ds.VerifUpdateSlotTopology() }); done <- i }(i, in)
+	}
+	for range insts {
+		<-done
+	}
+	for i, in := range insts {
+		for _, s := range in.srvs {
+			s.Close()
+		}
+		desc := fmt.Sprintf("syncer %d over %d nodes", i, in.n)
+		if in.lateNode < 0 {
+			if in.res.Completed {
+				violation(t, "C20", "syncer-topology:no-master-accepted", "%s, none of which reports master during the whole retry window: the topology update returned normally and the syncer keeps source %q", desc, in.ds.VerifNode().Source)
+				return
+			}
+			stats.C.Case(true, stats.HashS(fmt.Sprint("never", in.n, i)), "syncer-window:no-master")
+			continue
+		}
+		if in.lateAfter <= 6 && !in.res.Completed {
+			violation(t, "C20", "syncer-topology:late-master-missed", "%s, node%d reports master from its INFO round %d on: the topology update aborted: %v", desc, in.lateNode, in.lateAfter+1, in.res)
+			return
+		}
+		if got := in.ds.VerifNode().Source; in.res.Completed && got != in.addrs[in.lateNode] {
+			violation(t, "C20", "syncer-topology:node-list", "%s, node%d reports master from its INFO round %d on: syncer holds source %q, want %q", desc, in.lateNode, in.lateAfter+1, got, in.addrs[in.lateNode])
+			return
+		}
+		stats.C.Case(true, stats.HashS(fmt.Sprint("late", in.n, in.lateNode, in.lateAfter)), "syncer-window:late-master")
+	}
+}
+
+func TestC20SyncerWindow(t *testing.T) { rapid.Check(t, c20SyncerWindow) }
